@@ -29,6 +29,7 @@ type harnessSpec struct {
 	Note          string         `json:"note"`
 	MaxPaths      int64          `json:"max_paths"`
 	HangMs        int            `json:"hang_ms"`
+	Race          bool           `json:"race"`
 }
 
 type checkSpec struct {
@@ -96,6 +97,7 @@ func cmdRun(args []string) int {
 	replay := fs.Bool("replay", true, "replay violations natively")
 	sampleN := fs.Int("validate", 20, "number of passing paths to validate natively")
 	verbose := fs.Bool("v", false, "print each path")
+	race := fs.Bool("race", false, "native replays run under the race detector")
 	cpuprof := fs.String("cpuprofile", "", "write cpu profile")
 	fs.Parse(args)
 	if fs.NArg() != 1 {
@@ -113,7 +115,7 @@ func cmdRun(args []string) int {
 		fmt.Fprintln(os.Stderr, "load:", err)
 		return 2
 	}
-	hs := harnessSpec{Fn: fs.Arg(0), Pkg: *pkg, Quick: map[string]int{}, Budget: *budget, MapOrder: *mapOrder, MaxPaths: *maxPaths}
+	hs := harnessSpec{Fn: fs.Arg(0), Pkg: *pkg, Quick: map[string]int{}, Budget: *budget, MapOrder: *mapOrder, MaxPaths: *maxPaths, Race: *race}
 	if *params != "" {
 		for _, kv := range strings.Split(*params, ",") {
 			p := strings.SplitN(kv, "=", 2)
